@@ -51,4 +51,5 @@ def main():
             shutil.rmtree(tmp, ignore_errors=True)
 
 
-main()
+if __name__ == "__main__":
+    main()
